@@ -28,7 +28,8 @@ CONSTANTS N,         \* number of script steps
 
 Slot == 1..NS
 \* pure call / constructor into a slot / operation on the iterator of a slot
-Kinds == {[t |-> "call", slot |-> 0]} \cup {[t |-> "new", slot |-> s] : s \in Slot} \cup {[t |-> "op", slot |-> s] : s \in Slot}
+\* / a block of concurrent threads (one step: it returns or the process dies in it; the slots do not survive it)
+Kinds == {[t |-> "call", slot |-> 0], [t |-> "par", slot |-> 0]} \cup {[t |-> "new", slot |-> s] : s \in Slot} \cup {[t |-> "op", slot |-> s] : s \in Slot}
 VARIABLES kind,      \* step -> kind (chosen initially: every script)
           fatal,     \* set of steps at which the code under test kills the process
           pc,        \* "run" | "dead" | "done"
@@ -48,7 +49,7 @@ Exec == /\ pc = "run" /\ pos <= N /\ ~Skippable(pos)
            THEN /\ trace' = Append(trace, [step |-> pos, res |-> "pending"])      \* prefix written, process gone
                 /\ pc' = "dead" /\ UNCHANGED <<pos, lost>>
            ELSE /\ trace' = Append(trace, [step |-> pos, res |-> "ok"])
-                /\ lost' = IF kind[pos].t = "new" THEN lost \ {kind[pos].slot} ELSE lost
+                /\ lost' = IF kind[pos].t = "new" THEN lost \ {kind[pos].slot} ELSE IF kind[pos].t = "par" THEN Slot ELSE lost
                 /\ pos' = pos + 1 /\ pc' = pc
         /\ UNCHANGED <<kind, fatal, resume>>
 Skip == /\ pc = "run" /\ pos <= N /\ Skippable(pos)
@@ -75,7 +76,7 @@ LostBefore(i, s) == \* is slot s without an iterator when step i is reached (per
   IF i = 1 THEN TRUE
   ELSE LET p == i - 1
            executed == ~(kind[p].t = "op" /\ LostBefore(p, kind[p].slot))
-       IN IF executed /\ p \in fatal THEN TRUE                    \* the process died at p: every slot is empty
+       IN IF (executed /\ p \in fatal) \/ kind[p].t = "par" THEN TRUE   \* the process died at p / a parallel block: every slot is empty
           ELSE IF kind[p].t = "new" /\ kind[p].slot = s THEN FALSE
           ELSE LostBefore(p, s)
 Complete == pc = "done" => \A i \in 1..N : (i \notin Steps) <=> (kind[i].t = "op" /\ LostBefore(i, kind[i].slot))
